@@ -741,7 +741,8 @@ def check_C17(tier):
     reported = set()
     real_classes = set()
     total = 0
-    for owner, raises in [(o_, False) for o_ in threadcheck.OWNERS] + [('subbuild', True), ('build_file', True)]:
+    for owner, raises in ([(o_, False) for o_ in threadcheck.OWNERS] + [('subbuild', True), ('build_file', True), ('root', True),
+                                                                          ('subbuild', 'base'), ('build_file', 'base')]):
         for m in threadcheck.METHODS:
             # the sequential fence: a call that starts after the owner has returned (or raised)
             o, _ = threadcheck.run_fence(owner, m, None, after=True, owner_raises=raises)
